@@ -180,8 +180,5 @@ monotone!(u13_monotone_taiko_great, TAIKO_GREAT);
 //@ bound: as U13.monotone.osu_great
 //@ clause: monotone non-increasing for the taiko ok window table
 monotone!(u13_monotone_taiko_ok, TAIKO_OK);
-//@ obl: id=U13.monotone.ar harness=u13_monotone_ar props=C17 tier=thorough kind=proof budget=2400
-//@ fns: difficulty_range
-//@ bound: as U13.monotone.osu_great
-//@ clause: monotone non-increasing for the approach-rate (preempt) table
-monotone!(u13_monotone_ar, AR_WINDOWS);
+// NOTE: the same obligation for the approach-rate table (AR_WINDOWS: 1800 / 1200 / 450) did not finish within 40 min,
+// neither as one harness nor split into lower half / upper half / pivot; it is not registered.
